@@ -10,7 +10,7 @@ BATCH = 4
 RULE = ("(a) every edge list object the fast and custom generators return over every stub arrangement of every "
         "instance of the generator box (self-loops, repeated pairs, zero-degree vertices occur there), and (b) every "
         "hand-enumerated edge list over N vertices with up to L rows drawn from all pairs including loops x 2 "
-        "topology names x 2 id patterns, is converted to a network and back with the real converters and compared "
+        "topology names x 2 id patterns (4 for lists of <= 2 rows: also digit-string and tuple ids), is converted to a network and back with the real converters and compared "
         "with an independent description; non-trivial = distinct edge list with a zero row, loop or repeated pair")
 BOUNDS = {"quick": "(a) generator box of C01 restricted to <= 120 arrangements; (b) N<=3, L<=3",
           "thorough": "(a) generator box (thorough) restricted to <= 150 arrangements; (b) N<=4, L<=4"}
@@ -147,8 +147,9 @@ def run_instance(inst, tier):
     for rows in inst["rows"]:
         name_sets = ["AB"] + ([["", "B"]] if L <= 2 else [])   # "" is a legitimate (falsy) topology name
         for tops in [t for ns in name_sets for t in itertools.product(ns, repeat=L)]:
-            for idp in (0, 1):
-                ids = [i if idp == 0 else 10 + i // 2 for i in range(L)]
+            # a motif id is an opaque label: besides ints, digit strings and tuples (short lists only)
+            for idp in (0, 1) + ((2, 3) if L <= 2 else ()):
+                ids = [(i, 10 + i // 2, str(7 + i), ("m", i))[idp] for i in range(L)]
                 jds = [[0, 0] for _ in range(N)]
                 for (a, b), t in zip(rows, tops):
                     k = 1 if t == "B" else 0
@@ -176,7 +177,7 @@ def run_instance(inst, tier):
                         return res
     if L == 3 and not res.samples:
         res.samples.append({"N": N, "edge_list": list(inst["rows"][-1]), "topologies": "all of {A,B}^L",
-                            "id_patterns": ["row index", "10 + row//2"]})
+                            "id_patterns": ["row index", "10 + row//2", "digit strings (L<=2)", "tuples (L<=2)"]})
     return res
 
 
